@@ -38,7 +38,9 @@ type c29Opts struct {
 	SharedWays         float64 // probability that a multipolygon gets a twin over the same way members
 }
 
-func c29DefaultOpts() c29Opts { return c29Opts{MinNodes: 5, MaxNodes: 60, BrokenMP: 0.15, SharedWays: 0.3} }
+func c29DefaultOpts() c29Opts {
+	return c29Opts{MinNodes: 5, MaxNodes: 60, BrokenMP: 0.15, SharedWays: 0.3}
+}
 
 type c29Input struct {
 	Nodes     []osm.Node
